@@ -18,10 +18,12 @@ for f in m.all_functions():
     if f.kind == 'nested':
         continue
     out.setdefault(f.path, []).append(f.qualname)
+from sa.inline import attr_signatures   # noqa: E402
+attrs = {c.qualname: {a: sorted(sig) for a, sig in attr_signatures(m, c).items()} for c in m.classes.values()}
 commit = subprocess.run('git -C /repo rev-parse HEAD', shell=True, capture_output=True, text=True).stdout.strip()
 dirty = subprocess.run('git -C /repo status --porcelain', shell=True, capture_output=True, text=True).stdout.strip()
 if dirty:
     sys.exit('refusing: /repo is not clean')
-json.dump({'commit': commit, 'functions': {k: sorted(set(v)) for k, v in sorted(out.items())}},
+json.dump({'commit': commit, 'functions': {k: sorted(set(v)) for k, v in sorted(out.items())}, 'attrs': attrs},
           open(os.path.join(VERIF, 'reference_api.json'), 'w'), indent=0)
 print('reference', commit, sum(len(v) for v in out.values()), 'functions')
